@@ -1,12 +1,12 @@
 package props
 
 import (
-	"strings"
-	"path/filepath"
-	"os"
 	"bytes"
 	"encoding/binary"
 	"fmt"
+	"os"
+	"path/filepath"
+	"strings"
 	"testing"
 	"verifharness/peer"
 
